@@ -658,4 +658,38 @@ b("fx-f37", "C15", "pyformlang/cfg/parse_tree.py",
   "            end = son_result + end\n", "            end = derivation + end\n", "derivation-siblings-agree")
 p("c15-p-derivation-extend", "C15", "pyformlang/cfg/parse_tree.py",
   "            start = start + son_result\n", "            start = list(start)\n            start.extend(son_result)\n")
+b("c01-alphabet-gets-epsilon", "C01", FA + "finite_automaton.py",
+  "        if symb_by != Epsilon():\n            self._input_symbols.add(symb_by)\n",
+  "        self._input_symbols.add(symb_by)\n", "epsilon-not-in-alphabet")
+b("c01-alphabet-guard-inverted", "C01", FA + "finite_automaton.py",
+  "        if symb_by != Epsilon():\n            self._input_symbols.add(symb_by)\n",
+  "        if symb_by == Epsilon():\n            self._input_symbols.add(symb_by)\n", "epsilon-not-in-alphabet")
+p("c01-p-alphabet-flag", "C01", FA + "finite_automaton.py",
+  "        if symb_by != Epsilon():\n            self._input_symbols.add(symb_by)\n",
+  "        is_eps = symb_by == Epsilon()\n        alphabet = self._input_symbols\n        if not is_eps:\n            alphabet.add(symb_by)\n")
+p("c04-p-yield-flag", "C04", FA + "finite_automaton.py",
+  "                if self.__try_add(yielded_words, word_to_add):\n                    yield current_word\n",
+  "                fresh_word = self.__try_add(yielded_words, word_to_add)\n                if fresh_word:\n                    yield current_word\n")
+b("c04-yield-unguarded", "C04", FA + "finite_automaton.py",
+  "                if self.__try_add(yielded_words, word_to_add):\n                    yield current_word\n",
+  "                yielded_words.add(word_to_add)\n                yield current_word\n", "yield-guarded-by-duplicate-set")
+b("c01-tf-accepts-epsilon-edge", "C01", FA + "transition_function.py",
+  "        if symb_by == Epsilon():\n            raise InvalidEpsilonTransition()\n        if s_from in self._transitions:",
+  "        if s_from in self._transitions:", "dfa-function-rejects-epsilon")
+p("c01-p-tf-epsilon-flag-after-convert", "C01", FA + "nondeterministic_finite_automaton.py",
+  "        if symb_by == epsilon.Epsilon():\n            raise InvalidEpsilonTransition\n        return super().add_transition(s_from, symb_by, s_to)",
+  "        is_epsilon = symb_by == epsilon.Epsilon()\n        if not is_epsilon:\n            return super().add_transition(s_from, symb_by, s_to)\n        raise InvalidEpsilonTransition")
+b("c07-gate-on-wrong-branch", "C07", "pyformlang/regular_expression/python_regex.py",
+  "        if not isinstance(python_regex, str):\n            python_regex = python_regex.pattern\n        else:\n            re.compile(python_regex)  # Check if it is valid\n",
+  "        if not isinstance(python_regex, str):\n            python_regex = python_regex.pattern\n            re.compile(python_regex)\n",
+  "re.compile-gate")
+p("c07-p-gate-flag", "C07", "pyformlang/regular_expression/python_regex.py",
+  "        if not isinstance(python_regex, str):\n            python_regex = python_regex.pattern\n        else:\n            re.compile(python_regex)  # Check if it is valid\n",
+  "        plain = isinstance(python_regex, str)\n        if plain:\n            re.compile(python_regex)\n        else:\n            python_regex = python_regex.pattern\n")
+b("c15-cyk-children-reversed-display", "C15", "pyformlang/cfg/cyk_table.py",
+  "        if left_son is not None:\n            self.sons.append(left_son)\n        if right_son is not None:\n            self.sons.append(right_son)\n",
+  "        self.sons.extend(son for son in (right_son, left_son) if son is not None)\n", "children-left-then-right")
+p("c15-p-cyk-children-extend", "C15", "pyformlang/cfg/cyk_table.py",
+  "        if left_son is not None:\n            self.sons.append(left_son)\n        if right_son is not None:\n            self.sons.append(right_son)\n",
+  "        self.sons.extend(son for son in (left_son, right_son) if son is not None)\n")
 VARIANTS = V
